@@ -282,6 +282,7 @@ fn finalize_select(mut rows: Vec<StringBinding>, query: &SelectQuery<'_>) -> Vec
         .variables
         .iter()
         .any(|(kind, _, _)| *kind != "VAR" && *kind != "*")
+        || !query.group_vars.is_empty()
     {
         rows = aggregate_rows(rows, query);
     }
